@@ -344,7 +344,7 @@ func (c09) Case(c *core.Ctx) {
 		c.Violate("c09-receiver-modified", "a Leaf* query modified its receiver", core.D{"before": before, "after": jv.Show(root)})
 	}
 	if r.Intn(5) == 0 && !dot {
-		if jb, err := json.Marshal(root); err == nil {
+		if jb, err := json.Marshal(root); err == nil && jsonSafeKeys(root) {
 			ln, e := j2x.JsonLeafNodes(jb)
 			var got []leafT
 			for _, l := range ln {
